@@ -5,6 +5,7 @@
 package main
 
 import (
+	"time"
 	"crypto/sha256"
 	"encoding/hex"
 	"encoding/json"
@@ -64,6 +65,7 @@ type job struct {
 	data     []byte
 	flowUUID []assets.FlowUUID
 	names    []string // contact names by worker (default "Worker n")
+	zones    []string // contact timezones by worker, with a creation time at a day boundary (default: none, created now)
 	known    map[string]bool
 }
 
@@ -132,6 +134,25 @@ const locationAssets = `{
           "categories": [{"uuid": "9a1b2c3d-0000-4000-8000-000000000034", "name": "Found", "exit_uuid": "9a1b2c3d-0000-4000-8000-000000000044"}, {"uuid": "9a1b2c3d-0000-4000-8000-000000000035", "name": "Other", "exit_uuid": "9a1b2c3d-0000-4000-8000-000000000045"}],
           "default_category_uuid": "9a1b2c3d-0000-4000-8000-000000000035", "result_name": "District"},
        "exits": [{"uuid": "9a1b2c3d-0000-4000-8000-000000000044", "destination_uuid": "9a1b2c3d-0000-4000-8000-000000000014"}, {"uuid": "9a1b2c3d-0000-4000-8000-000000000045", "destination_uuid": "9a1b2c3d-0000-4000-8000-000000000014"}]}]}
+  ]
+}`
+
+// groups on dates, and contacts in different timezones created at a day boundary: the parsed query of a group is shared by
+// every session over the assets, and whose timezone reads its date must not depend on who came first
+const dateGroupAssets = `{
+  "channels": [{"uuid": "57f1078f-88aa-46f4-a59a-948a5739c03d", "name": "Android", "address": "+17036975131", "schemes": ["tel"], "roles": ["send", "receive"], "country": "US"}],
+  "fields": [{"uuid": "9a1b2c3d-0000-4000-8000-000000060001", "key": "joined", "name": "Joined", "type": "datetime"}],
+  "groups": [{"uuid": "9a1b2c3d-0000-4000-8000-000000060002", "name": "Before 2020", "query": "created_on < 2020-01-01"},
+             {"uuid": "9a1b2c3d-0000-4000-8000-000000060003", "name": "Since 2020", "query": "created_on >= 2020-01-01"},
+             {"uuid": "9a1b2c3d-0000-4000-8000-000000060004", "name": "New Year", "query": "created_on = 2020-01-01 OR joined = 01-01-2020"}],
+  "flows": [
+    {"uuid": "9a1b2c3d-0000-4000-8000-000000060005", "name": "Dates", "spec_version": "13.6.0", "language": "eng", "type": "messaging", "revision": 1, "expire_after_minutes": 60, "localization": {},
+     "nodes": [{"uuid": "9a1b2c3d-0000-4000-8000-000000060006", "actions": [
+        {"uuid": "9a1b2c3d-0000-4000-8000-000000060007", "type": "send_msg", "text": "groups: @(join(foreach(contact.groups, (g) => g.name), \",\"))"},
+        {"uuid": "9a1b2c3d-0000-4000-8000-000000060008", "type": "set_contact_field", "field": {"key": "joined", "name": "Joined"}, "value": "@contact.created_on"},
+        {"uuid": "9a1b2c3d-0000-4000-8000-000000060009", "type": "send_msg", "text": "groups: @(join(foreach(contact.groups, (g) => g.name), \",\"))"}],
+       "router": {"type": "switch", "operand": "@input.text", "wait": {"type": "msg"}, "cases": [], "categories": [{"uuid": "9a1b2c3d-0000-4000-8000-00000006000a", "name": "All", "exit_uuid": "9a1b2c3d-0000-4000-8000-00000006000b"}], "default_category_uuid": "9a1b2c3d-0000-4000-8000-00000006000a"},
+       "exits": [{"uuid": "9a1b2c3d-0000-4000-8000-00000006000b"}]}]}
   ]
 }`
 
@@ -204,6 +225,12 @@ func loadJobs(dir string) []job {
 		loc.known[u] = true
 	}
 	jobs = append(jobs, loc)
+	dg := job{file: "synthetic-date-groups", data: []byte(dateGroupAssets), known: map[string]bool{}, flowUUID: []assets.FlowUUID{"9a1b2c3d-0000-4000-8000-000000060005"},
+		zones: []string{"Africa/Kigali", "America/Los_Angeles", "UTC", "Pacific/Auckland"}}
+	for _, u := range uuidRe.FindAllString(dateGroupAssets, -1) {
+		dg.known[u] = true
+	}
+	jobs = append(jobs, dg)
 	return jobs
 }
 
@@ -262,6 +289,14 @@ func work(env envs.Environment, sa flows.SessionAssets, j job, w int) string {
 		name = j.names[w%len(j.names)]
 	}
 	contact := flows.NewEmptyContact(sa, name, i18n.Language("eng"), nil)
+	if len(j.zones) > 0 {
+		tz, _ := time.LoadLocation(j.zones[w%len(j.zones)])
+		created := time.Date(2019, 12, 31, 22, 30, 0, 0, time.UTC).Add(time.Duration(w/len(j.zones)) * 3 * time.Hour)
+		if c2, err := flows.NewContact(sa, flows.ContactUUID(fmt.Sprintf("9a1b2c3d-0000-4000-8000-0000000700%02d", w)), flows.ContactID(100+w), name, i18n.Language("eng"),
+			flows.ContactStatusActive, tz, created, nil, nil, nil, nil, nil, assets.IgnoreMissing); err == nil {
+			contact = c2
+		}
+	}
 	contact.AddURN(urns.URN(fmt.Sprintf("tel:+1206555%04d", 1000+w)), nil)
 	trig := triggers.NewBuilder(env, flow.Reference(false), contact).Manual().Build()
 	s, sp, err := eng.NewSession(sa, trig)
